@@ -22,7 +22,7 @@ func parserFamily(c *Ctx, kind string) []*family.Grammar {
 		// all of size <= 3 plus a seeded sample of size 4
 		small := family.Dedup(family.Basis(3))
 		gs = append(gs, small...)
-		gs = append(gs, family.Sample(basis[len(small):], 700, c.Seed)...)
+		gs = append(gs, basis[len(small):]...) // every well-formed expression of size 4
 	} else {
 		gs = append(gs, basis...)
 	}
@@ -69,7 +69,7 @@ func maxN(c *Ctx) int {
 	if c.Quick() {
 		return 4
 	}
-	return 5
+	return 6
 }
 
 var stdAssumptions = []string{
@@ -83,10 +83,14 @@ var stdAssumptions = []string{
 // nFor: the thorough tier explores one rune more on the curated shapes and on grammars with few
 // distinguishable terminal classes (path growth per rune is small there).
 func nFor(c *Ctx, gg *GenGrammar, n int) int {
+	curated := strings.HasPrefix(gg.G.Tag, "shape/") || strings.HasPrefix(gg.G.Tag, "endlook/")
 	if c.Quick() {
+		if curated {
+			return n + 1
+		}
 		return n
 	}
-	if strings.HasPrefix(gg.G.Tag, "shape/") || strings.HasPrefix(gg.G.Tag, "endlook/") || gg.G.Classes() <= 3 {
+	if curated || gg.G.Classes() <= 3 {
 		return n + 1
 	}
 	return n
@@ -101,7 +105,7 @@ func lenJobs(entry string, maxN int, extra ...int) []*Job {
 }
 
 func stdBounds(c *Ctx, n int) {
-	c.Bounds["input_length_note"] = "thorough tier: one rune more (N+1) on the curated shapes, the end-of-input lookahead layer and grammars with <= 3 terminal classes"
+	c.Bounds["input_length_note"] = "one rune more (N+1) on the curated shapes and the end-of-input lookahead layer (both tiers) and, in the thorough tier, on grammars with <= 3 terminal classes"
 	c.Bounds["input_length"] = fmt.Sprintf("all lengths 0..%d runes; each rune any Unicode scalar value (0..0x10FFFF minus surrogates), i.e. every Go string whose decoding has that many runes", n)
 	c.Bounds["outside"] = "longer inputs; grammars outside the enumerated family; semantic predicates with side effects"
 	c.Assumptions = append(c.Assumptions, stdAssumptions...)
